@@ -138,7 +138,7 @@ static void lp_run (long item)
 				}
 				if (T->status == TRUTH_OPTIMAL && !mpq_equal (oo->objval, T->val)) {
 					lp_desc (L, &x, desc, sizeof desc);
-					char *a = mpq_get_str (NULL, 10, oo->objval), *b = mpq_get_str (NULL, 10, T->val);
+					char *a = q_str (oo->objval), *b = q_str (T->val);
 					viol (k == 0 ? "C03" : "C04", "value-differs", "reported optimum %s but the true optimum is %s: %s", a, b, desc);
 					free (a); free (b);
 				}
